@@ -41,7 +41,7 @@ def fingerprint_changes():
 def jobs_for(tier, seed, escalate):
     """(name, flags) list. dfs = all schedules up to the preemption bound (capped by -max), rand = seeded walks."""
     big = tier == 'thorough'
-    m = (40000 if big else 1500) * (4 if escalate else 1)
+    m = (10000 if big else 1500) * (4 if escalate else 1)
     pbx = 1 if (big or escalate) else 0
     J = []
     def dfs(name, scen, pb, parts=1, mx=None):
@@ -164,8 +164,8 @@ def run(rep, prop=PROP):
     rep.cov['jobs'] = [dict(name=r['name'], flags=' '.join(r['flags']), runs=r['dsum'].get('runs'), t_harness=r.get('t_harness'), t_driver=r.get('t_driver')) for r in results]
     rep.cov['samples'] = []
     for r in results[:2]:
-        if os.path.exists(r['trace']):
-            rep.cov['samples'].append(dict(job=r['name'], run0=shardrun.run_lines(r['trace'], 0)[:12]))
+        if r.get('sample'):
+            rep.cov['samples'].append(dict(job=r['name'], flags=' '.join(r['flags']), run0=r['sample']))
     # ---- verdict
     if spec_fail:
         r, k, m = spec_fail[0]
@@ -207,6 +207,10 @@ def replay(rep, path):
     rep.cov['mode'] = mode
     for k, m in r['spec_fail'][:3]: print('REPLAY: impl-violates-spec: run %d: %s' % (k, m))
     for k, m in r['conf_fail'][:3]: print('REPLAY: model-impl-differ: run %d: %s' % (k, m))
+    if r['rc'] == 2 and not r['spec_fail']:
+        # badsched: the recorded schedule names an actor that cannot move at that point in this tree
+        print('REPLAY: the recorded schedule does not apply to this tree (the code takes different steps): not reproduced')
+        return rep.finish(LEVEL)
     if r['rc'] != 0: print('REPLAY: harness rc=%s %s' % (r['rc'], r['harness_out'][-300:]))
     if r['spec_fail']:
         rep.violation('replay reproduces: ' + r['spec_fail'][0][1], shardrun.replay_lines(r, r['spec_fail'][0][0], r['spec_fail'][0][1]))
